@@ -7,6 +7,7 @@ from twisted.internet.base import DelayedCall
 from twisted.python import failure
 from harness import implenv as E
 import foolscap.reconnector as rc
+import foolscap.eventual as ev
 from foolscap.tokens import NegotiationError, RemoteNegotiationError
 
 ALPHABET = ["start", "ok", "fail", "lost", "timer", "elapse", "reset", "stop"]
@@ -22,6 +23,7 @@ class LogClock(task.Clock):
     def __init__(self, log):
         task.Clock.__init__(self)
         self.log = log
+        self.drv = None
         self.n_later = 0
 
     def callLater(self, delay, f, *a, **kw):
@@ -40,6 +42,8 @@ class LogClock(task.Clock):
         self._sortCalls()
         self.n_later += 1
         self.log.append(("timer", delay))
+        if self.drv is not None and self.drv.stop_returned:
+            self.drv.late.append("timer")
         return dc
 
 
@@ -64,14 +68,35 @@ class ScriptedRandom:
 
 
 class RRef:
+    """a RemoteReference as far as the Reconnector can tell; disconnect watchers behave like Broker's: they are
+    delivered through foolscap.eventual (a later turn) when the connection is lost"""
+
     def __init__(self, drv):
         self.drv = drv
-        self.cb = None
+        self.watchers = []
+        self.lost = False
+        self.recon = 0          # the Reconnector's own watcher is registered
+        self.cb_script = ()     # what the user's callback does when it is handed this reference
+        self.hscript = ()       # what the user's own disconnect handler does
 
     def notifyOnDisconnect(self, cb, *a, **k):
-        self.cb = (cb, a, k)
-        self.drv.n_watch += 1
-        self.drv.log.append(("watch",))
+        drv = self.drv
+        if cb == drv.w_disconnected:
+            drv.n_watch += 1
+            drv.log.append(("watch",))
+            if drv.stop_returned:
+                drv.late.append("watch")
+            self.recon += 1
+        if self.lost:
+            ev.eventually(cb, *a, **k)
+        else:
+            self.watchers.append((cb, a, k))
+
+    def lose(self):
+        self.lost = True
+        w, self.watchers = self.watchers, []
+        for cb, a, k in w:
+            ev.eventually(cb, *a, **k)
 
 
 class FakeTub:
@@ -84,6 +109,8 @@ class FakeTub:
     def getReference(self, url):
         self.drv.n_getref += 1
         self.drv.log.append(("getref",))
+        if self.drv.stop_returned:
+            self.drv.late.append("attempt")
         if self.prearmed is not None:
             ev, self.prearmed = self.prearmed, None
             if ev[0] == "ok":
@@ -126,92 +153,255 @@ def make_failure(kind):
 
 
 class Driver:
-    """one Reconnector in a fake environment.  Events (see lib/Reconnector.v):
-    ("start",) ("ok",) ("fail", z, kind) ("lost",) ("timer",) ("elapse",) ("reset",) ("stop",)"""
+    """one real Reconnector in a fake environment: fake Tub (getReference returns Deferreds the driver fires), logging
+    virtual clock for the retry timer, a separate clock that carries foolscap's eventual-send queue (so that the
+    driver decides when a reactor turn happens), scripted normalvariate, Broker-like RemoteReferences.
+
+    Atomic events (lib/Reconnector.v): ("start",) ("ok",) ("fail", z, kind) ("lost",) ("timer",) ("elapse",) ("reset",)
+    ("stop",); every atomic event is followed by draining the eventual queue.
+
+    Micro-operations (turn structure made explicit; nothing is drained implicitly):
+      ("start",) ("ok", script) ("fail", z, kind) ("lose", script) ("turn",) ("timer",) ("elapse",) ("reset",) ("stop",)
+      ("later", op)       -- op is put on the eventual queue (it happens in the next turn, in queue order)
+    script = tuple of "stop"/"reset": calls made from inside the user's callback ("ok") resp. from inside the user's own
+    notifyOnDisconnect handler ("lose").
+
+    Every entry point of the Reconnector is wrapped on the instance, so that the driver knows in which order they were
+    REALLY invoked: self.invoked is the history as model events."""
 
     def __init__(self, cb_raises=False):
         self.log = []
         self.clock = LogClock(self.log)
-        self.saved = (rc.reactor, rc.time, rc.random)
+        self.clock.drv = self
+        self.evclock = task.Clock()
+        self.saved = (rc.reactor, rc.time, rc.random, ev.reactor)
         self.rnd = ScriptedRandom()
         rc.reactor = self.clock
         rc.time = FakeTime(self.clock)
         rc.random = self.rnd
-        self.n_cb = self.n_getref = self.n_watch = 0
+        ev.reactor = self.evclock
+        self._reset_queue()
+        self.n_cb = self.n_getref = self.n_watch = self.n_disc = 0
         self.rrefs = []
         self.tub = FakeTub(self)
         self.cb_raises = cb_raises
-        self.r = rc.Reconnector("pb://tubid@fake:x:1/name", self._cb, ("extra",), {"kw": 1})
         self.errors = []
+        self.invoked = []
+        self.cur_ok = None          # the model event of the _connected call that is on the stack
+        self.in_user_cb = 0
+        self.stop_returned = False
+        self.first_stop_before_start = None
+        self.late = []              # what the Reconnector did after stopConnecting() had returned
+        self.cur_z = (Fraction(0), 0)
+        self.claimed = []
+        self.n_logged = len(E.logged_errors)
+        self.r = R = rc.Reconnector("pb://tubid@fake:x:1/name", self._cb, ("extra",), {"kw": 1})
+        o_connected, o_failed, o_disc, o_timer = R._connected, R._failed, R._disconnected, R._timer_expired
+
+        def w_connected(rref):
+            e = ["ok", []]
+            self.invoked.append(e)
+            prev, self.cur_ok = self.cur_ok, e
+            try:
+                return o_connected(rref)
+            finally:
+                self.cur_ok = prev
+
+        def w_failed(f):
+            self.invoked.append(("fail",) + self.cur_z)
+            return o_failed(f)
+
+        def w_disconnected():
+            self.invoked.append(("lost",))
+            self.n_disc += 1
+            return o_disc()
+
+        def w_timer_expired():
+            self.invoked.append(("timer",))
+            return o_timer()
+        R._connected, R._failed, R._disconnected, R._timer_expired = w_connected, w_failed, w_disconnected, w_timer_expired
+        self.w_disconnected = w_disconnected
+
+    def _reset_queue(self):
+        q = ev._theSimpleQueue
+        q._events = []
+        q._flushObservers = []
+        q._timer = None
 
     def close(self):
-        rc.reactor, rc.time, rc.random = self.saved
+        rc.reactor, rc.time, rc.random, ev.reactor = self.saved
+        self._reset_queue()
 
+    # -- the user's code
     def _cb(self, rref, extra, kw=None):
         assert extra == "extra" and kw == 1
+        if self.stop_returned:
+            self.late.append("callback")
         self.n_cb += 1
         self.log.append(("cb",))
+        rref.notifyOnDisconnect(self._user_handler, rref)      # as the documentation recommends
+        self.in_user_cb += 1
+        try:
+            for op in rref.cb_script:
+                self.user_call(op)
+        finally:
+            self.in_user_cb -= 1
         if self.cb_raises:
             raise ValueError("user callback raises")
+
+    def _user_handler(self, rref):
+        for op in rref.hscript:
+            self.user_call(op)
+
+    def user_call(self, op):
+        """the user calls stopConnecting()/reset(): from top level, from inside the callback, or from a queued event"""
+        if self.cur_ok is not None and self.in_user_cb:
+            self.cur_ok[1].append(op)
+        else:
+            self.invoked.append((op,))
+        if op == "stop":
+            if self.first_stop_before_start is None:
+                self.first_stop_before_start = self.r._tub is None
+            self.r.stopConnecting()
+            self.stop_returned = True
+        elif op == "reset":
+            self.r.reset()
+        else:
+            raise ValueError(op)
 
     # -- what can happen
     def inflight(self):
         return [d for d in self.tub.pending if not d.called and d.callbacks]
 
+    def unclaimed(self):
+        return [d for d in self.inflight() if d not in self.claimed]
+
     def watched(self):
-        return [x for x in self.rrefs if x.cb is not None]
+        return [x for x in self.rrefs if x.recon and not x.lost]
 
     def pending_calls(self):
         return list(self.clock.getDelayedCalls())
+
+    def queue_len(self):
+        return len(self.evclock.calls)
 
     def enabled(self, name):
         if name == "start":
             return self.r._tub is None
         if name in ("ok", "fail"):
-            return bool(self.inflight())
-        if name == "lost":
+            return bool(self.unclaimed())
+        if name in ("lost", "lose"):
             return bool(self.watched())
         if name in ("timer", "elapse"):
-            return bool(self.pending_calls())
+            return bool(self.pending_calls()) and not self.queue_len()
+        if name == "turn":
+            return bool(self.queue_len())
         return True
 
-    def do(self, ev):
-        """perform one event; -> list of outputs (tuples) in the order they happened"""
-        del self.log[:]
-        name = ev[0]
-        if name == "start":
-            self.r.startConnecting(self.tub)
-        elif name == "ok":
-            d = self.inflight()[0]
+    def turn(self):
+        """one reactor turn of the eventual-send queue"""
+        calls = self.evclock.calls
+        if not calls:
+            return False
+        dc = calls[0]
+        calls.remove(dc)
+        dc.called = 1
+        dc.func(*dc.args, **dc.kw)
+        return True
+
+    def drain(self):
+        for i in range(1000):
+            if not self.turn():
+                return
+        raise RuntimeError("eventual queue does not drain")
+
+    def _fire(self, op, d):
+        name = op[0]
+        if name == "ok":
             x = RRef(self)
+            x.cb_script = tuple(op[1]) if len(op) > 1 else ()
             self.rrefs.append(x)
             d.addErrback(lambda f: self.errors.append(f) if not f.check(ValueError) else None)
             d.callback(x)
-        elif name == "fail":
-            d = self.inflight()[0]
-            self.rnd.z = float(ev[1])
+        else:
+            self.rnd.z = float(op[1])
+            self.cur_z = (Fraction(op[1]), op[2])
             d.addErrback(lambda f: self.errors.append(f))
-            d.errback(make_failure(ev[2]))
-        elif name == "lost":
+            d.errback(make_failure(op[2]))
+
+    def micro(self, op):
+        """perform one micro-operation; -> outputs in the order they happened.  Nothing is drained."""
+        del self.log[:]
+        name = op[0]
+        if name == "start":
+            self.invoked.append(("start",))
+            self.r.startConnecting(self.tub)
+        elif name in ("ok", "fail"):
+            self._fire(op, self.unclaimed()[0])
+        elif name == "lose":
             x = self.watched()[0]
-            cb, a, k = x.cb
-            x.cb = None
-            cb(*a, **k)
+            x.hscript = tuple(op[1]) if len(op) > 1 else ()
+            x.lose()
+        elif name == "turn":
+            self.turn()
         elif name == "timer":
             dc = self.pending_calls()[0]
             self.clock.rightNow = max(self.clock.rightNow, dc.getTime())
             self.clock.advance(0)
         elif name == "elapse":
             dc = self.pending_calls()[0]
+            self.invoked.append(("elapse",))
             self.clock.rightNow += (dc.getTime() - self.clock.rightNow) / 2.0
             self.clock.advance(0)
-        elif name == "reset":
-            self.r.reset()
-        elif name == "stop":
-            self.r.stopConnecting()
+        elif name in ("reset", "stop"):
+            self.user_call(name)
+        elif name == "later":
+            inner = op[1]
+            if inner[0] in ("ok", "fail"):
+                d = self.unclaimed()[0]
+                self.claimed.append(d)
+                ev.eventually(self._fire, inner, d)
+            else:
+                ev.eventually(self.user_call, inner[0])
         else:
-            raise ValueError(ev)
+            raise ValueError(op)
+        self._collect_logged()
         return list(self.log)
+
+    def _collect_logged(self):
+        new = E.logged_errors[self.n_logged:]
+        self.n_logged = len(E.logged_errors)
+        for e in new:
+            f = e.get("failure")
+            if f is not None and f.check(ValueError) and "user callback raises" in str(f.value):
+                continue
+            if f is not None:
+                self.errors.append(f)
+
+    def do(self, ev_):
+        """perform one atomic event and let the eventual queue drain; -> outputs in the order they happened"""
+        name = ev_[0]
+        if name == "lost":
+            outs = self.micro(("lose",))
+        elif name == "ok":
+            outs = self.micro(("ok", ()))
+        else:
+            outs = self.micro(ev_)
+        keep = list(outs)
+        del self.log[:]
+        self.drain()
+        self._collect_logged()
+        return keep + list(self.log)
+
+    def take_invoked(self):
+        out = []
+        for e in self.invoked:
+            if e[0] == "ok":
+                out.append(("ok", tuple(e[1])))
+            else:
+                out.append(tuple(e))
+        del self.invoked[:]
+        return out
 
     def snapshot(self):
         r = self.r
@@ -220,7 +410,7 @@ class Driver:
         referenced = 1 if (tm and tm in calls) else 0
         remaining = r.getDelayUntilNextAttempt()
         return dict(active=bool(r._active), stopped=getattr(r, "_stopped", None), tub=r._tub is not None,
-                    info=r.getReconnectionInfo().state, inflight=len(self.inflight()), watching=len(self.watched()),
+                    info=r.getReconnectionInfo().state, inflight=len(self.inflight()), watching=self.n_watch - self.n_disc,
                     leaked=len(calls) - referenced, timer_ref=bool(tm), timer=remaining, delay=r._delay,
                     ncalls=len(calls), remaining=[c.getTime() - self.clock.seconds() for c in calls])
 
@@ -291,6 +481,7 @@ def run_sequence(events, cb_raises=False, oracle=True, only_last=False):
             if stopped_at is not None:
                 kinds = ["callback", "attempt", "watch", "timer"]
                 grew = [k for k, a, b in zip(kinds, before, after) if b > a]
+                grew += [k for k in drv.late if k not in grew]      # judged on the order of the actual invocations
                 if grew or snap["ncalls"] or snap["active"]:
                     what = ("after stopConnecting (event %d) event %d %r: %s; pending delayed calls %d, _active %r"
                             % (stopped_at, i, ev, ", ".join("%s started/invoked" % g for g in grew) or "nothing new",
@@ -345,6 +536,157 @@ def run_sequence(events, cb_raises=False, oracle=True, only_last=False):
         return obs, viol, len(obs)
     finally:
         drv.close()
+
+
+MICRO_EXHAUSTIVE = [("start",), ("ok", ()), ("ok", ("stop",)), ("fail",), ("lose", ()), ("lose", ("stop",)), ("turn",),
+                    ("timer",), ("reset",), ("stop",), ("later", ("ok", ())), ("later", ("stop",))]
+MICRO_ALL = MICRO_EXHAUSTIVE + [("ok", ("reset",)), ("ok", ("reset", "stop")), ("lose", ("reset",)), ("elapse",),
+                                ("later", ("fail",)), ("later", ("reset",))]
+
+
+def micro_name(op):
+    if op[0] in ("ok", "lose"):
+        return op[0] + ("{" + ",".join(op[1]) + "}" if len(op) > 1 and op[1] else "")
+    if op[0] == "later":
+        return "later:" + micro_name(op[1])
+    return op[0]
+
+
+def micro_json(op):
+    if op[0] == "fail":
+        return ["fail", str(op[1]), op[2]]
+    if op[0] in ("ok", "lose"):
+        return [op[0], list(op[1]) if len(op) > 1 else []]
+    if op[0] == "later":
+        return ["later", micro_json(op[1])]
+    return [op[0]]
+
+
+def micro_from_json(j):
+    if j[0] == "fail":
+        return ("fail", Fraction(j[1]), int(j[2]))
+    if j[0] in ("ok", "lose"):
+        return (j[0], tuple(j[1]))
+    if j[0] == "later":
+        return ("later", micro_from_json(j[1]))
+    return (j[0],)
+
+
+def micro_enabled(drv, op):
+    name = op[0]
+    if name == "later":
+        return drv.enabled(op[1][0])
+    return drv.enabled(name)
+
+
+def run_micro(ops, cb_raises=False):
+    """run micro-operations (explicit reactor turns, re-entrant user calls, queued operations) on a fresh real
+    Reconnector.  -> (groups, violation or None, n_performed); one group per performed operation:
+    (model events in the order the Reconnector's entry points were REALLY invoked, observation).
+    After the last operation the eventual queue is drained (an extra, final group) so that whatever is still queued
+    gets its chance to misbehave."""
+    drv = Driver(cb_raises)
+    groups = []
+    viol = None
+    try:
+        R = drv.r
+        bound = R.maxDelay * (1 + R.jitter * ZMAX)
+        todo = list(ops) + [None]
+        for i, op in enumerate(todo):
+            final = op is None
+            if not final and not micro_enabled(drv, op):
+                break
+            try:
+                if final:
+                    del drv.log[:]
+                    drv.drain()
+                    drv._collect_logged()
+                    outs = list(drv.log)
+                else:
+                    outs = drv.micro(op)
+            except Exception as e:
+                import traceback
+                viol = viol or Violation("oracle/exception-in-reconnector", "operation %d %r raised %s: %s"
+                                         % (i, op, type(e).__name__, traceback.format_exc()[-500:]))
+                return groups, viol, len(ops)
+            snap = drv.snapshot()
+            evs = drv.take_invoked()
+            groups.append((evs, (flags_of(snap), [OUT[o[0]] for o in outs], snap["delay"], snap["timer"],
+                                 [o[1] for o in outs if o[0] in ("timer", "reset")])))
+            if viol is not None:
+                continue
+            where = "the final drain of the eventual queue" if final else "operation %d %s" % (i, micro_name(op))
+            if drv.errors:
+                viol = Violation("oracle/exception-in-reconnector", "%s: %s" % (where, drv.errors[0].getTraceback()[-600:]))
+                continue
+            if drv.late or (drv.stop_returned and (snap["ncalls"] or snap["active"])):
+                what = ("%s, after stopConnecting() had returned: %s; pending retry timers %d, _active %r"
+                        % (where, ", ".join({"callback": "the user callback was invoked", "attempt": "getReference was called",
+                                             "watch": "notifyOnDisconnect was called", "timer": "callLater was called"}[k]
+                                            for k in drv.late) or "nothing new", snap["ncalls"], snap["active"]))
+                if drv.first_stop_before_start:
+                    viol = Violation("oracle/stop-before-start-reactivated", what)
+                elif "callback" in drv.late:
+                    viol = Violation("oracle/callback-after-stop", what)
+                elif "attempt" in drv.late:
+                    viol = Violation("oracle/attempt-after-stop", what)
+                else:
+                    viol = Violation("oracle/timer-after-stop", what)
+                continue
+            if snap["active"]:
+                n = snap["inflight"] + snap["watching"] + snap["ncalls"]
+                if n != 1:
+                    viol = Violation("oracle/activity-count", "active Reconnector has %d activities after %s (attempts in "
+                                     "flight %d, watched connections %d, pending timers %d)"
+                                     % (n, where, snap["inflight"], snap["watching"], snap["ncalls"]))
+                    continue
+            for dl in snap["remaining"]:
+                if not (-1e-9 <= dl <= bound * (1 + 1e-9)):
+                    viol = Violation("oracle/delay-out-of-range", "retry timer due in %r s after %s (allowed 0..%r)"
+                                     % (dl, where, bound))
+            # a lost connection restarts the backoff: the timer it sets is initialDelay
+            if ("lost",) in evs and snap["active"]:
+                set_ = [o[1] for o in outs if o[0] == "timer"]
+                if set_ != [R.initialDelay]:
+                    viol = Violation("oracle/backoff-not-restarted", "%s delivered the loss of the connection: retry timers set "
+                                     "%r, expected [initialDelay=%r]" % (where, set_, R.initialDelay))
+        return groups, viol, len(groups) - (1 if len(groups) == len(ops) + 1 else 0)
+    finally:
+        drv.close()
+
+
+def dfs_micro(depth, on_node, alphabet=None):
+    """every sequence of micro-operations (from `alphabet`) of length <= depth that the real object permits, as a tree
+    with shared prefixes.  -> list of root nodes; node = dict(op, path, evs, obs, kids) where evs/obs are what the last
+    operation of the path made the Reconnector do (entry points actually invoked; observation without draining).
+    on_node(path, violation) for every sequence (the violation includes what the final drain of the queue revealed).
+    A sequence with a violation is not extended."""
+    alphabet = alphabet or MICRO_EXHAUSTIVE
+
+    def instantiate(op, d):
+        if op == ("fail",):
+            return ("fail", ZS[d % len(ZS)], d)
+        if op == ("later", ("fail",)):
+            return ("later", ("fail", ZS[d % len(ZS)], d))
+        return op
+
+    def rec(path, n):
+        d = len(path)
+        kids = []
+        if n > 0:
+            for a in alphabet:
+                op = instantiate(a, d)
+                p = path + [op]
+                groups, viol, done = run_micro(p)
+                if done < len(p):
+                    continue
+                on_node(p, viol)
+                node = dict(op=op, path=p, evs=groups[len(p) - 1][0], obs=groups[len(p) - 1][1], kids=[])
+                if viol is None:
+                    node["kids"] = rec(p, n - 1)
+                    kids.append(node)
+        return kids
+    return rec([], depth)
 
 
 def run_sync_variant(events, async_obs, cb_raises=False):
